@@ -336,16 +336,18 @@ def case_evolve_loop(log, order):
                 out, sc, steps = _run_evolve(mm, order, nf_from, nf_to, avals, Ls, xif2, m2)
             finally:
                 mm.ker_dispatcher = real_kd
-            want = m2
-            want_calls = []
+            want1, want2 = m2, m2
             for i, (nfl, d) in enumerate(steps):
                 tab = mm.compute_matching_coeffs_up(SR(nfl)) if d == "up" else mm.compute_matching_coeffs_down(SR(nfl))
-                want = want * _factor(avals[nfl + 1], tab, Ls[nfl - 3], order)
+                f = _factor(avals[nfl + 1], tab, Ls[nfl - 3], order)
+                want1, want2 = want1 * f, want2 * f * f
                 if i + 1 < len(steps):
-                    want = want * SR.var("KER%d" % (i + 1)) ** 2
+                    want1 = want1 * SR.var("KER%d" % (i + 1)) ** 2
+                    want2 = want2 * SR.var("KER%d" % (i + 1)) ** 2
             tag = "evolve order %d, nf %d -> %d" % (order, nf_from, nf_to)
             rp = (MOD, "replay_evolve", {"order": order, "nf_from": nf_from, "nf_to": nf_to})
-            v = prove_zero(SR(0) + out - want, "%s: m^2 out == m^2 in * prod(table factor with a_s of the upper patch, right logarithm) * prod(ker^2 of the legs)" % tag)
+            # which power of the per-mass factor multiplies m^2 is the subject of evolve.physics; here: right table / coupling / logarithm / legs
+            v = prove_zero((SR(0) + out - want1) * (SR(0) + out - want2), "%s: m^2 out == m^2 in * prod(table factor [to the 1st or 2nd power] with a_s of the upper patch, right logarithm) * prod(ker^2 of the legs)" % tag)
             D(v, key="evolve:matching:%s" % ("up" if nf_to > nf_from else "down"), replay=rp, sampler=_sampler)
             # couplings requested at wall*xif2 with the upper nf of the threshold
             okc = True
@@ -386,7 +388,7 @@ def _lit_zeta_m(nl, z3, A, L, order):
 
 
 def case_evolve_physics(log, order):
-    """m^2 across one threshold: square of the published zeta_m; RG invariance; down o up = 1."""
+    """table level: the per-mass factor is the published zeta_m, RG consistent, down x up = 1;  evolve level: m^2 changes by its square."""
     mm, cpl = _load()
     _install_lifted_up(mm)
     log.encode(mm.evolve, mm.compute_matching_coeffs_up.__wrapped__, mm.compute_matching_coeffs_down, cpl.invert_matching_coeffs)
@@ -395,69 +397,70 @@ def case_evolve_physics(log, order):
     def mk(nfl):
         def run():
             jetmod.set_cap(order + 1)
-            z3 = SR.var("zeta3")
-            assume(z3 - Fraction(12, 10), ">0")
-            assume(Fraction(1203, 1000) - z3, ">0")
+            z3 = lift_exact(float(DEC.ZETA3))
             L = SR.var("Lq", seed=True)
+            assume(L + Fraction(139, 100), ">=0")
+            assume(Fraction(139, 100) - L, ">=0")
+            Ln = L.novar()
             Ls = [SR.var("L0"), SR.var("L1"), SR.var("L2")]
             Ls[nfl - 3] = L
             lam = Jet.lam()
-            avals = {n: lam for n in (3, 4, 5, 6)}
-            one = SR(1)
-            Hd, _sc, _st = _run_evolve(mm, order, nfl + 1, nfl, avals, Ls, SR(1), one)  # m2_low / m2_up
-            Hu, _sc, _st = _run_evolve(mm, order, nfl, nfl + 1, avals, Ls, SR(1), one)  # m2_up / m2_low
-            Hd, Hu = as_jet(Hd), as_jet(Hu)
             top = order  # coefficients a^0 .. a^(order-1)
-            rp = (MOD, "replay_evolve", {"order": order, "nf_from": nfl + 1, "nf_to": nfl, "physics": True})
-            # (a) published zeta_m, squared (the function evolves m^2); decimals of the a^3 L^0, L^1 entries to the printed digits
-            zm = as_jet(_lit_zeta_m(SR(nfl), lift_exact(float(DEC.ZETA3)), lam, L.novar(), order))
-            want_d = zm * zm
-            diff = Jet(Hd.v, [c.novar() for c in Hd.c], Hd.prec) - want_d
+            Fd = as_jet(_factor(lam, mm.compute_matching_coeffs_down(SR(nfl)), L, order))
+            Fu = as_jet(_factor(lam, mm.compute_matching_coeffs_up(SR(nfl)), L, order))
+            Fdn = Jet(Fd.v, [c.novar() for c in Fd.c], Fd.prec)
+            rpt = (MOD, "replay_table", {"nfl": nfl, "order": order})
+            # (a) the downward factor is the published zeta_m (decimal a^3 entries to the printed digits)
+            zm = as_jet(_lit_zeta_m(SR(nfl), z3, lam, Ln, order))
+            diff = Fdn - zm
             for k in range(0, top):
                 c = diff._known(k)
                 if k == 3:
-                    tol = Fraction(4, 1000)  # printed digits: 118.248, 1.58257 nf, 71.7887, 7.85185 nf (x2 from the square; |L| <= 1.39)
-                    assume(L.novar() + Fraction(139, 100), ">=0")
-                    assume(Fraction(139, 100) - L.novar(), ">=0")
+                    tol = Fraction(15, 10000)  # 118.248, 1.58257 nf, 71.7887 L, 7.85185 nf L with |L| <= 1.39, nf <= 5
                     for rel, expr, side in ((">=0", c + tol, "lower"), ("<=0", c - tol, "upper")):
-                        v = prove_rel(expr, rel, "order %d threshold %d|%d downward: a^3 coefficient of m^2 ratio equals that of zeta_m^2 (published) to the printed digits (%s)" % (order, nfl, nfl + 1, side))
-                        D(v, key="evolve:zeta_m_squared", replay=rp, sampler=_sampler)
+                        v = prove_rel(expr, rel, "mass decoupling nl=%d: a^3 coefficient of the downward factor equals the published zeta_m to the printed digits (%s)" % (nfl, side))
+                        D(v, key="compute_matching_coeffs_down[mass]:a3", replay=rpt, sampler=_sampler)
                 else:
-                    v = prove_zero(c, "order %d threshold %d|%d downward: a^%d coefficient of m^2 ratio == that of the published zeta_m squared" % (order, nfl, nfl + 1, k))
-                    D(v, key="evolve:zeta_m_squared", replay=rp, sampler=_sampler)
+                    v = prove_zero(c, "mass decoupling nl=%d: a^%d coefficient of the downward factor == published zeta_m" % (nfl, k))
+                    D(v, key="compute_matching_coeffs_down[mass]:a%d" % k, replay=rpt, sampler=_sampler)
             # (b) inverse
-            prod = Hd * Hu - 1
+            prod = Fd * Fu - 1
             for k in range(0, top):
-                v = prove_zero(prod._known(k), "order %d threshold %d|%d: a^%d coefficient of (down factor)(up factor) - 1 == 0" % (order, nfl, nfl + 1, k))
-                D(v, key="evolve:inverse", replay=rp, sampler=_sampler)
-            # (c) RG invariance of m^2 on both sides (independent of the mass table): H = m2_low/m2_up as function of A = a^(nf+1), L
-            #     -2 gamma^(nf)(a_low) H = -2 gamma^(nf+1)(A) H + dH/dA beta^(nf+1)(A) + dH/dL (1 + 2 gamma^(nf+1)(A)),   a_low = A zeta_g^2(A, L) (published)
-            Hn = Jet(Hd.v, [c.novar() for c in Hd.c], Hd.prec)
-            dHdL = jet_tangent(Hd)
-            dHdA = Jet(0, [Hn._known(k) * k for k in range(1, order + 1)], INF)
+                v = prove_zero(prod._known(k).novar(), "mass decoupling nl=%d order %d: a^%d coefficient of (down factor)(up factor) - 1 == 0" % (nfl, order, k))
+                D(v, key="compute_matching_coeffs_down[mass]:inverse", replay=rpt, sampler=_sampler)
+            # (c) RG invariance of the mass on both sides, independent of the published zeta_m:  F = m_low/m_up as function of A = a^(nf+1), L
+            #     -gamma^(nf)(a_low) F = -gamma^(nf+1)(A) F + dF/dA beta^(nf+1)(A) + dF/dL (1 + 2 gamma^(nf+1)(A)),   a_low = A zeta_g^2(A, L) (published)
+            dFdL = jet_tangent(Fd)
+            dFdA = Jet(0, [Fdn._known(k) * k for k in range(1, order + 1)], INF)
             bu = [LIT.beta0(nfl + 1), LIT.beta1(nfl + 1), LIT.beta2(nfl + 1)]
             gl = [LIT.gamma0(), LIT.gamma1(nfl), LIT.gamma2(nfl, z3)]
             gu = [LIT.gamma0(), LIT.gamma1(nfl + 1), LIT.gamma2(nfl + 1, z3)]
             zg = DEC.zeta_g2_msbar(nfl, z3=z3)
-            a_low = lam * (1 + sum(lam**n * L.novar() ** l * DEC.get(zg, n, l) for n in range(1, 4) for l in range(n + 1)))
+            a_low = lam * (1 + sum(lam**n * Ln**l * DEC.get(zg, n, l) for n in range(1, 4) for l in range(n + 1)))
             gam_low = sum(g * a_low ** (k + 1) for k, g in enumerate(gl))
             gam_up = sum(g * lam ** (k + 1) for k, g in enumerate(gu))
             beta_up = -sum(b * lam ** (k + 2) for k, b in enumerate(bu))
-            res = as_jet(-2 * gam_low * Hn + 2 * gam_up * Hn - dHdA * beta_up - dHdL * (1 + 2 * gam_up))
+            res = as_jet(-gam_low * Fdn + gam_up * Fdn - dFdA * beta_up - dFdL * (1 + 2 * gam_up))
             for k in range(0, top):
-                v = prove_zero(res._known(k), "order %d threshold %d|%d downward: a^%d coefficient of the RG consistency condition of m^2 == 0" % (order, nfl, nfl + 1, k))
-                D(v, key="evolve:rg", replay=rp, sampler=_sampler)
-            # the oracle itself (published zeta_m squared) is RG consistent: sanity of refs/decoupling.py
-            z2 = want_d
-            dzL = jet_tangent(as_jet(_lit_zeta_m(SR(nfl), lift_exact(float(DEC.ZETA3)), lam, L, order)) ** 2)
-            dzA = Jet(0, [z2._known(k) * k for k in range(1, order + 1)], INF)
-            res2 = as_jet(-2 * gam_low * z2 + 2 * gam_up * z2 - dzA * beta_up - dzL * (1 + 2 * gam_up))
-            for k in range(0, min(top, 3)):
-                v = prove_zero(res2._known(k), "published zeta_m^2, threshold %d|%d: a^%d coefficient of the RG consistency condition == 0" % (nfl, nfl + 1, k))
-                if v.holds:
-                    log.ok(v)
+                c = res._known(k)
+                if k == 3:
+                    tol = Fraction(2, 1000)
+                    for rel, expr, side in ((">=0", c + tol, "lower"), ("<=0", c - tol, "upper")):
+                        v = prove_rel(expr, rel, "mass decoupling nl=%d: a^3 coefficient of the RG consistency condition vanishes to the printed digits of the table (%s)" % (nfl, side))
+                        D(v, key="compute_matching_coeffs_down[mass]:rg", replay=rpt, sampler=_sampler)
                 else:
-                    log.inconclusive.append("oracle refs/decoupling.py (zeta_m) is not RG consistent at a^%d, nl=%d" % (k, nfl))
+                    v = prove_zero(c, "mass decoupling nl=%d: a^%d coefficient of the RG consistency condition of the running mass == 0" % (nfl, k))
+                    D(v, key="compute_matching_coeffs_down[mass]:rg", replay=rpt, sampler=_sampler)
+            # (d) evolve works on m^2: across the threshold m^2 must change by the SQUARE of the factor for m
+            avals = {n: lam for n in (3, 4, 5, 6)}
+            for direction, (n1, n2), Fm in (("downward", (nfl + 1, nfl), Fdn), ("upward", (nfl, nfl + 1), Jet(Fu.v, [c.novar() for c in Fu.c], Fu.prec))):
+                R, _sc, _st = _run_evolve(mm, order, n1, n2, avals, [x.novar() for x in Ls], SR(1), SR(1))
+                R = as_jet(R)
+                d2 = Jet(R.v, [c.novar() for c in R.c], R.prec) - Fm * Fm
+                rp = (MOD, "replay_evolve", {"order": order, "nf_from": n1, "nf_to": n2, "physics": True})
+                for k in range(0, top):
+                    v = prove_zero(d2._known(k), "evolve order %d threshold %d|%d %s: a^%d coefficient of [m^2 out / m^2 in] - [factor for m]^2 == 0" % (order, nfl, nfl + 1, direction, k))
+                    D(v, key="evolve:mass-matching-not-squared", replay=rp, sampler=_sampler)
             log.twin("domain")
             log.collect_ctx()
 
@@ -603,6 +606,26 @@ class BkNumpy(C18Numpy):
     def concatenate(self, arrs, *a, **k):
         out = realnp.concatenate([realnp.asarray(x, dtype=object) for x in arrs]).astype(object)
         return out.view(MassArr)
+
+    def allclose(self, a, b, rtol=1e-05, atol=1e-08, equal_nan=False):
+        """numpy's formula |a-b| <= atol + rtol*|b| for all elements as ONE symbolic Boolean (absolute values through z3 If)"""
+        from symx.solver import ZBool
+
+        xs = [SR(0) + e for e in realnp.asarray(a).tolist()]
+        ys = [SR(0) + e for e in realnp.asarray(b).tolist()]
+        conj = []
+        for x, y in zip(xs, ys):
+            d = (x - y).v.canon()
+            if d.n.is_zero():
+                continue
+            dz = S.poly_to_z3(d.n)
+            yz = S.poly_to_z3(y.v.canon().n)
+            ad = z3.If(dz >= 0, dz, -dz)
+            ay = z3.If(yz >= 0, yz, -yz)
+            conj.append(ad <= z3.RealVal(str(Fraction(atol).limit_denominator(10**12))) + z3.RealVal(str(Fraction(rtol).limit_denominator(10**12))) * ay)
+        if not conj:
+            return True
+        return bool(ZBool(z3.And(conj)))
 
     def sort(self, a, *args, **k):
         xs = [SR(0) + e for e in realnp.asarray(a).tolist()]
@@ -889,7 +912,8 @@ def replay_evolve(point, order, nf_from, nf_to, physics=False):
     steps = _steps(nf_from, nf_to)
     if len(steps) > 1:
         return None  # multi-threshold routes: structural obligations only
-    sc = _real_sc(order, "exact", 5, masses2, ratios)
+    # the coupling object carries unit ratios: evolve multiplies the walls of the object it is given by `thresholds_ratios` once more
+    sc = _real_sc(order, "exact", 5, masses2, [1.0, 1.0, 1.0])
     nfl, d = steps[0]
     w = walls[nfl - 3]
     m2 = 4.0
@@ -898,11 +922,33 @@ def replay_evolve(point, order, nf_from, nf_to, physics=False):
     t = DEC.zeta_m_msbar(nfl)
     zm = 1 + sum(A**n * Ls[nfl - 3] ** l * float(DEC.get(t, n, l)) for n in range(1, order) for l in range(n + 1))
     want = m2 * zm**2 if d == "down" else m2 / zm**2
-    # truncation of the inverse at the implemented order: allowance a^order
-    allow = (50 * A) ** order + 1e-9
+    # square of the truncated series vs truncated square, and truncated inverse (the a^1 coefficients vanish): O(delta^2)
+    allow = 6 * (zm - 1) ** 2 + 1e-9
     if abs(got / want - 1) > allow:
         return {"detail": "evolve across the threshold nf %d -> %d at mu^2 = %r*m^2 (order %d, a_s^(%d)=%r): m^2 ratio %r, the published decoupling relation zeta_m (for m) gives %r for m^2"
                 % (nf_from, nf_to, ratios[nfl - 3], order, nfl + 1, A, got / m2, want / m2)}
+    return None
+
+
+def replay_table(point, nfl, order):
+    """real mass tables vs the published zeta_m, and down x up = 1, numerically at a point"""
+    from eko import msbar_masses as mm
+
+    A = float(point.get("A", 0.02))
+    L = float(point.get("Lq", 0.4))
+    if not (0.005 <= A <= 0.03 and abs(L) <= 1.39):
+        return None
+    dn, up = mm.compute_matching_coeffs_down(nfl), mm.compute_matching_coeffs_up(nfl)
+    t = DEC.zeta_m_msbar(nfl)
+    for n in range(1, order):
+        for l in range(n + 1):
+            tol = 2e-3 if n == 3 and l in (0, 1) else 1e-9
+            if abs(dn[n, l] - float(DEC.get(t, n, l))) > tol:
+                return {"detail": "downward mass-matching coefficient [%d,%d] for nl=%d is %r, published zeta_m has %r" % (n, l, nfl, float(dn[n, l]), float(DEC.get(t, n, l)))}
+    fd = 1 + sum(A**n * L**l * dn[n, l] for n in range(1, order) for l in range(n + 1))
+    fu = 1 + sum(A**n * L**l * up[n, l] for n in range(1, order) for l in range(n + 1))
+    if abs(fd * fu - 1) > 6 * (fd - 1) ** 2 + 1e-12:
+        return {"detail": "mass decoupling factors down*up - 1 = %r at A=%r, L=%r, nl=%d, order %d (allowed O(delta^2) = %r)" % (fd * fu - 1, A, L, nfl, order, 6 * (fd - 1) ** 2)}
     return None
 
 
